@@ -86,6 +86,8 @@ type FnExec struct {
 	allocName string
 	mode     string // "full" or "safety"
 	mutSlices map[ssa.Value]Val
+	inContractApply bool
+	zeroInit    bool
 	nosafetyAssumed int
 	localNames  map[string]bool
 	modCache    map[string][]string
@@ -118,10 +120,20 @@ func (fx *FnExec) heapVar(h *Heap, name, sort string) string {
 	return n
 }
 
+func (fx *FnExec) isMonotone(name string) bool {
+	for _, n := range fx.e.cs.Monotone {
+		if n == name {
+			return true
+		}
+	}
+	return false
+}
+
 func (fx *FnExec) heapSet(h *Heap, name, sort, term string) {
 	if _, ok := fx.e.heapSort[name]; !ok {
 		fx.e.heapSort[name] = sort
 	}
+
 	// introduce a named version to keep terms small
 	v := fx.c.fresh(name, fx.e.heapSort[name])
 	fx.c.assert(sEq(v, term))
@@ -194,7 +206,7 @@ func (fx *FnExec) assume(t string) {
 	fx.c.assert(sImp(fx.curReach, t))
 }
 
-var safetyClasses = map[string]bool{"nil": true, "idx": true, "assert": true, "div": true, "unreachable": true, "makeslice": true}
+var safetyClasses = map[string]bool{"monotone": true, "nil": true, "idx": true, "assert": true, "div": true, "unreachable": true, "makeslice": true}
 
 func (fx *FnExec) oblige(class, label, goal, text string, p token.Pos) *Obligation {
 	if safetyClasses[class] && fx.con != nil && hasFlag(fx.con, "nosafety") {
@@ -317,7 +329,7 @@ func (fx *FnExec) wellTyped(v Val, h *Heap) string {
 			facts = append(facts, rangeFact(v.L[i], l.T))
 		}
 		if l.Path == "len" || strings.HasSuffix(l.Path, ".len") {
-			facts = append(facts, sLe("0", v.L[i]))
+			facts = append(facts, sLe("0", v.L[i]), sLe(v.L[i], "9223372036854775807"))
 			// nil slices are empty
 			if i > 0 && (ls[i-1].Path == "nil" || strings.HasSuffix(ls[i-1].Path, ".nil")) {
 				facts = append(facts, sImp(v.L[i-1], sEq(v.L[i], "0")))
@@ -505,8 +517,17 @@ func (fx *FnExec) storeField(h *Heap, addr string, owner types.Type, idx int, v 
 	for i, l := range ls {
 		name := fieldHeapName(owner, f, l.Path)
 		hv := fx.heapVar(h, name, arraySort("Int", l.Sort))
+		fx.monotoneCheck(name, hv, addr, v.L[i])
 		fx.heapSet(h, name, arraySort("Int", l.Sort), sSto(hv, addr, v.L[i]))
 	}
+}
+
+// monotoneCheck: guarantee side of a `monotone` declaration - a write does not reset a set entry
+func (fx *FnExec) monotoneCheck(name, old, addr, v string) {
+	if fx.zeroInit || fx.inContractApply || fx.con == nil || !fx.isMonotone(name) {
+		return
+	}
+	fx.oblige("monotone", "", sImp(sNot(sEq(sSel(old, addr), "0")), sNot(sEq(v, "0"))), "a write to "+name+" does not reset a non-nil entry to nil", token.NoPos)
 }
 
 func (fx *FnExec) storeStruct(h *Heap, addr string, t types.Type, v Val) {
@@ -561,11 +582,15 @@ func (fx *FnExec) storeCell(h *Heap, ptr string, t types.Type, v Val) {
 	for i, l := range fx.e.leaves(t) {
 		name := cellName(t, l.Path)
 		hv := fx.heapVar(h, name, arraySort("Int", l.Sort))
+		fx.monotoneCheck(name, hv, ptr, v.L[i])
 		fx.heapSet(h, name, arraySort("Int", l.Sort), sIte(sAnd(none...), sSto(hv, ptr, v.L[i]), hv))
 		for _, c := range cands {
 			st, _ := fx.structOf(c.owner)
 			fn := fieldHeapName(c.owner, st.Field(c.idx), l.Path)
 			fh := fx.heapVar(h, fn, arraySort("Int", l.Sort))
+			if fx.isMonotone(fn) && !fx.zeroInit && !fx.inContractApply && fx.con != nil {
+				fx.oblige("monotone", "", sImp(sAnd(sEq(app("sub_tag", ptr), intLit(int64(c.tag))), sNot(sEq(sSel(fh, app("sub_inv", ptr)), "0"))), sNot(sEq(v.L[i], "0"))), "a write through a pointer to "+fn+" does not reset a non-nil entry to nil", token.NoPos)
+			}
 			fx.heapSet(h, fn, arraySort("Int", l.Sort), sIte(sEq(app("sub_tag", ptr), intLit(int64(c.tag))), sSto(fh, app("sub_inv", ptr), v.L[i]), fh))
 		}
 	}
@@ -631,6 +656,35 @@ func nonEscaping(v ssa.Value, depth int) bool {
 		}
 	}
 	return true
+}
+
+// arrayLocal: a local array (typically the backing store of a variadic argument list) whose address is only
+// used for constant-index element access and for slicing
+func arrayLocal(a *ssa.Alloc) (*types.Array, bool) {
+	et := elemOf(a.Type())
+	if et == nil || isTypeParam(et) {
+		return nil, false
+	}
+	arr, ok := under(et).(*types.Array)
+	if !ok || arr.Len() > 16 || a.Referrers() == nil {
+		return nil, false
+	}
+	for _, r := range *a.Referrers() {
+		switch x := r.(type) {
+		case *ssa.IndexAddr:
+			if _, isConst := x.Index.(*ssa.Const); !isConst || !nonEscaping(x, 1) {
+				return nil, false
+			}
+		case *ssa.Slice:
+			if x.Low != nil || x.High != nil || x.Max != nil {
+				return nil, false
+			}
+		case *ssa.DebugRef:
+		default:
+			return nil, false
+		}
+	}
+	return arr, true
 }
 
 // load through a pointer value
